@@ -48,11 +48,12 @@ ASSUMPTIONS = [
     "element names used by the harness itself are chosen different from the candidate (uniqueness rules are C07)",
     "component names are exercised with a GPU component (a NIC derives service/interface names from it)",
 ]
-BUDGET = {"quick": 110000, "thorough": 3000000}
+BUDGET = {"quick": 120000, "thorough": 3000000}
 MIN_LABEL_FRACTION = {
     "cls:MEMBER": 0.25, "cls:NON-MEMBER": 0.35, "nt": 0.25,
-    "kind:label": 0.35, "kind:tags": 0.05, "kind:name": 0.08, "kind:boot": 0.02, "kind:jsondata": 0.04,
-    "kind:capacity": 0.04, "form:list": 0.12, "nm:trailing-newline": 0.05, "nm:member": 0.2,
+    # (boot-script and capacity cases live in small finite spaces; Hypothesis does not repeat examples)
+    "kind:label": 0.35, "kind:tags": 0.05, "kind:name": 0.08, "kind:boot": 0.004, "kind:jsondata": 0.03,
+    "kind:capacity": 0.01, "form:list": 0.12, "nm:trailing-newline": 0.05, "nm:member": 0.2,
     "near-miss-edit1": 0.15, "member-boundary": 0.06,
 }
 
@@ -78,7 +79,7 @@ def _label_case(draw):
     if form == "list":
         others = draw(st.lists(G.member(field), min_size=0, max_size=3))
         pos = draw(st.integers(0, len(others)))
-    prior = draw(st.one_of(st.none(), G.member(field)))
+    prior = draw(G.member(field)) if draw(st.integers(0, 3)) == 0 else None
     return {"kind": "label", "field": field, "value": c["value"], "form": form, "others": others, "pos": pos,
             "prior": prior, "elem": draw(_elem), "via": draw(st.sampled_from(LABEL_VIAS)),
             "nm": c["nm"], "base": c["base"]}
@@ -106,7 +107,7 @@ def _name_case(draw):
 def _boot_case(draw):
     if draw(st.integers(0, 9)) == 0:
         return {"kind": "boot", "value": draw(st.sampled_from([0, 3, 1.5, True, {}, ["a"], {"a": 1}])), "ch": "x",
-                "len": 0, "via": draw(st.sampled_from(["assign", "add-kwarg", "graph-read"]))}
+                "len": 0, "via": draw(st.sampled_from(["assign", "add-kwarg", "set_property"]))}
     n = draw(st.one_of(st.sampled_from([1, 2, 1022, 1023, 1024, 1025, 1026, 2048]), st.integers(1, 1100),
                        st.integers(1000, 5000)))
     return {"kind": "boot", "value": None, "ch": draw(st.sampled_from(["x", "#", "\n", " ", "é", "a"])), "len": n,
@@ -128,7 +129,7 @@ _TEXT_TEMPLATES = [          # (pre, post, mutation class)
     ('{"k": 01, "p": "', '"}', "leading-zero"), ('{"k": .5, "p": "', '"}', "bad-number"),
     ('{"k": NaN, "p": "', '"}', "nan"), ('[-Infinity, "', '"]', "nan"), ('{"k": "é', '"}', "non-ascii"),
     ('{"k" "', '"}', "missing-colon"), ('{"k": "', '" "j": 1}', "missing-comma"), ('[1 2, "', '"]', "missing-comma"),
-    ('﻿{"k": "', '"}', "bom"), ('{"k": "\\u12', '"}', "bad-escape"), ('{"k": tru, "p": "', '"}', "bad-literal"),
+    ('\ufeff{"k": "', '"}', "bom"), ('{"k": "\\u12', '"}', "bad-escape"), ('{"k": tru, "p": "', '"}', "bad-literal"),
 ]
 
 
@@ -140,7 +141,8 @@ def _json_case(draw):
     target = draw(st.one_of(st.sampled_from([limit - 2, limit - 1, limit, limit + 1, limit + 2, 2 * limit]),
                             st.integers(0, 64), st.integers(limit - 20, limit + 20)))
     if draw(st.integers(0, 2)) == 0:
-        obj = draw(st.one_of(st.just({}), st.just([]), _json_small.filter(lambda o: isinstance(o, (dict, list)))))
+        obj = draw(st.one_of(st.just({}), st.just([]), st.lists(_json_small, max_size=3),
+                             st.dictionaries(st.text(G.WORD, max_size=4), _json_small, max_size=3)))
         base_len = len(json.dumps(_pad_object(obj, 0)))
         return {"kind": "jsondata", "cls": cls, "form": "object", "obj": obj, "pad": max(0, target - base_len),
                 "via": via}
@@ -166,10 +168,12 @@ def _cap_case(draw):
 
 
 def strategy(tier):
-    return st.one_of(_label_case(), _label_case(), _label_case(), _label_case(), _label_case(), _label_case(),
-                     _label_case(), _label_case(), _label_case(), _label_case(), _label_case(),
-                     _name_case(), _name_case(), _name_case(), _tags_case(), _tags_case(),
-                     _json_case(), _json_case(), _cap_case(), _cap_case(), _boot_case())
+    # (the less frequent kinds come first: Hypothesis favours early alternatives a little)
+    return st.one_of(_boot_case(), _boot_case(), _cap_case(), _cap_case(), _cap_case(), _json_case(), _json_case(),
+                     _json_case(), _tags_case(), _tags_case(),
+                     _name_case(), _name_case(), _name_case(), _name_case(),
+                     _label_case(), _label_case(), _label_case(), _label_case(), _label_case(), _label_case(),
+                     _label_case(), _label_case(), _label_case(), _label_case(), _label_case(), _label_case())
 
 
 # ------------------------------------------------------------------------------------------------
@@ -239,7 +243,8 @@ def _props(t, elem):
 
 
 def _node_count(t):
-    return len(list(t.graph_model.storage.get_graph(t.graph_model.graph_id).nodes))
+    g = t.graph_model.storage.extract_graph(t.graph_model.graph_id)
+    return 0 if g is None else len(g.nodes)
 
 
 class _Ctx:
@@ -262,7 +267,7 @@ class _Ctx:
             if self.verdict == NON_MEMBER:       # clause 1
                 self.add(self.known_sig or f"C16/{self.group}/nonmember-accepted/{name}",
                          f"value outside the documented domain accepted by {name}: {info}")
-            if stored_ok is False and self.verdict != NON_MEMBER:     # clause 2 (second half)
+            if stored_ok is False and self.verdict == MEMBER:         # clause 2 (second half)
                 self.add(f"C16/{self.group}/stored-differs/{name}", f"accepted by {name} but stored value differs: {info}")
         else:
             if self.verdict == MEMBER:           # clause 2
@@ -305,25 +310,25 @@ def _run_label(case):
     prior = case.get("prior")
     if prior is not None and G.classify_label(field, prior) != MEMBER:
         prior = None
+    keep = "instance" if field != "instance" else "device_name"     # an unrelated field that must survive
 
     # entry: constructor
     ok, res = _try(lambda: Labels(**{field: arg}))
     ctx.entry("ctor", ok, f"{info} -> {_exc(res)}", stored_ok=ok and getattr(res, field) == arg)
     accepted_obj = res if ok else None
     # entry: constructor together with another (valid) field given first
-    ok, res = _try(lambda: Labels(local_name="keep", **{field: arg}))
-    if field != "local_name":
-        ctx.entry("ctor-2fields", ok, f"{info} -> {_exc(res)}",
-                  stored_ok=ok and getattr(res, field) == arg and res.local_name == "keep")
+    ok, res = _try(lambda: Labels(**{keep: "keep", field: arg}))
+    ctx.entry("ctor-2fields", ok, f"{info} -> {_exc(res)}",
+              stored_ok=ok and getattr(res, field) == arg and getattr(res, keep) == "keep")
     # entry: Labels.update (copy with changes) on a base that may already hold a member for the field
-    base = Labels(instance="keep")
+    base = Labels(**{keep: "keep"})
     if prior is not None:
-        base = Labels(instance="keep", **{field: prior})
+        base = Labels(**{keep: "keep", field: prior})
     before = dict(base.__dict__)
     ok, res = _try(lambda: Labels.update(base, **{field: arg}))
     kept = dict(base.__dict__) == before
     ctx.entry("update", ok, f"{info} prior={prior!r} -> {_exc(res)}",
-              stored_ok=ok and getattr(res, field) == arg and (field == "instance" or res.instance == "keep") and kept,
+              stored_ok=ok and getattr(res, field) == arg and getattr(res, keep) == "keep" and kept,
               unchanged_ok=kept)
     # entry: from_json text
     text = json.dumps({field: arg})
@@ -340,12 +345,12 @@ def _run_label(case):
     # entry: model element
     _element_entry(ctx, case, info, prop="labels", graph_prop="Labels",
                    make=lambda: Labels(**{field: arg}), graph_text=text,
-                   prior_make=(lambda: Labels(instance="keep", **{field: prior})) if prior is not None
-                   else (lambda: Labels(instance="keep")),
+                   prior_make=(lambda: Labels(**{keep: "keep", field: prior})) if prior is not None
+                   else (lambda: Labels(**{keep: "keep"})),
                    updater=lambda e: e.update_labels(**{field: arg}),
                    read=lambda e: e.labels,
                    check=lambda got, via: got is not None and getattr(got, field) == arg and
-                   (via != "update_labels" or field == "instance" or got.instance == "keep"))
+                   (via != "update_labels" or getattr(got, keep) == "keep"))
     ctx.differential(info)
     return ctx, verdict, field
 
@@ -357,7 +362,7 @@ def _element_entry(ctx, case, info, prop, graph_prop, make, graph_text, prior_ma
     elem_kind, via = case.get("elem", "node"), case["via"]
     if via in ("add-kwarg", "graph-read") and elem_kind not in ("node", "component"):
         elem_kind = "node"
-    t, e = _build(elem_kind)
+    t, e = _build("node" if via == "add-kwarg" else elem_kind)
     name = f"{via}@{elem_kind}"
     if via == "add-kwarg":
         from fim.user import ComponentModelType
@@ -365,7 +370,7 @@ def _element_entry(ctx, case, info, prop, graph_prop, make, graph_text, prior_ma
         if elem_kind == "node":
             ok, res = _try(lambda: t.add_node(name="hnode2", site="SITE", **{prop: make()}))
         else:
-            parent = t.nodes["hnode"]
+            parent = e
             ok, res = _try(lambda: parent.add_component(name="hgpu2", model_type=ComponentModelType.GPU_RTX6000,
                                                         **{prop: make()}))
         got_ok = None
@@ -383,7 +388,7 @@ def _element_entry(ctx, case, info, prop, graph_prop, make, graph_text, prior_ma
         ok, res = _try(lambda: read(e))
         ctx.entry(name, ok, f"{info} -> {_exc(res)}", stored_ok=ok and check(res, via))
         return
-    if via == updater.__name__ or via in ("update_labels", "update_capacities"):
+    if via in ("update_labels", "update_capacities"):
         ok, res = _try(lambda: updater(e))
     elif via == "assign":
         ok, res = _try(lambda: setattr(e, prop, make()))
@@ -578,17 +583,14 @@ def _run_json(case):
         x = case["pre"] + case["ch"] * case["pad"] + case["post"]
         verdict = G.classify_json_text(x, limit)
         size = len(x)
-        why = "oversize" if size > limit else "invalid-json"
         stored_eq = lambda o: o is not None and o.json == x
     else:
         x = _pad_object(case["obj"], case["pad"])
         dl, cl = len(json.dumps(x)), len(json.dumps(x, separators=(",", ":")))
         verdict = G.classify_json_object(dl, cl, limit)
         size = dl
-        why = "oversize"
         stored_eq = lambda o: o is not None and o.data == x
     ctx = _Ctx(verdict, cls_name)
-    ctx.why = why
     info = f"{cls_name} form={case['form']} size={size} limit={limit} mut={case.get('mut')} verdict={verdict}" + \
            (f" text={x!r}" if size <= 80 else "")
     ok, res = _try(lambda: cls(x))
@@ -615,7 +617,6 @@ def _run_json(case):
                    graph_text=x if case["form"] == "text" else None,
                    prior_make=lambda: cls({"prior": 1}), updater=lambda e: None, read=getter,
                    check=lambda got, v: stored_eq(got))
-    # rename the element entry so that raw and instance assignment are told apart
     ctx.differential(info)
     return ctx, verdict, size, limit
 
